@@ -225,6 +225,10 @@ def last_differs(lines, cfg, scratch):
         # one side died (abort): a difference unless both died at the same line
         return len(il) != len(ml)
     op = lines[-1].split()
+    if cfg.compare_op:
+        r = cfg.compare_op(op, il[n - 1], ml[n - 1])
+        if r is not None:
+            return not r
     return not compare_lines(il[n - 1], ml[n - 1], cfg.mode_for(op), cfg.rtol, cfg.atol_rel)
 
 
@@ -366,7 +370,11 @@ def check(prop, tier, seed):
                     if not toks:
                         continue
                     stats["evaluations"] += 1
-                    same = (il == ml) or compare_lines(il, ml, cfg.mode_for(toks), cfg.rtol, cfg.atol_rel)
+                    same = None
+                    if cfg.compare_op:
+                        same = cfg.compare_op(toks, il, ml)
+                    if same is None:
+                        same = (il == ml) or compare_lines(il, ml, cfg.mode_for(toks), cfg.rtol, cfg.atol_rel)
                     if not same or ((il == "bad-op" or ml == "bad-op") and not cfg.allow_badop):
                         if len(mismatches) < 200:
                             mismatches.append((n, op.rstrip("\n"), il, ml))
